@@ -674,6 +674,21 @@ theorem foldl_mul_right {α ι : Type} (add mul : α → α → α)
     rw [← hd]
     exact foldl_mul_right add mul hd g w l _
 
+theorem foldl_cond_mul_right {α ι : Type} (add mul : α → α → α)
+    (hd : ∀ x y w, mul (add x y) w = add (mul x w) (mul y w)) (c : ι → Bool) (g : ι → α) (w : α) :
+    ∀ (l : List ι) (init : α),
+    l.foldl (fun acc k => if c k then add acc (mul (g k) w) else acc) (mul init w)
+      = mul (l.foldl (fun acc k => if c k then add acc (g k) else acc) init) w
+  | [], _ => rfl
+  | k :: l, init => by
+    simp only [List.foldl_cons]
+    by_cases hc : c k = true
+    · simp only [hc, if_true]
+      rw [← hd]
+      exact foldl_cond_mul_right add mul hd c g w l _
+    · simp only [hc]
+      exact foldl_cond_mul_right add mul hd c g w l _
+
 theorem shapeSize_snoc : ∀ (s : List Nat) (m : Nat), shapeSize (s ++ [m]) = shapeSize s * m
   | [], m => by simp [shapeSize]
   | n :: s, m => by
